@@ -240,8 +240,14 @@ fn gen_in() -> BoxedStrategy<Value> {
             _ => json!({"needle": other, "hay": h, "kind": "independent"}),
         }
     });
+    let long_cases = (gen::long_texts(), 0u8..4).prop_map(|(t, m)| match m {
+        0 => json!({"needle": "é", "hay": {"k": t}, "kind": "independent"}),
+        1 => json!({"needle": {"k": t}, "hay": "haystack", "kind": "independent"}),
+        2 => json!({"needle": t.chars().take(3).collect::<String>(), "hay": t, "kind": "substring"}),
+        _ => json!({"needle": [t], "hay": 5, "kind": "independent"}),
+    });
     let other_cases = (gen::values(), prop_oneof![Just(Value::Null), gen::numbers(), Just(json!(true)), gen::inert_objects()]).prop_map(|(n, h)| json!({"needle": n, "hay": h, "kind": "independent"}));
-    prop_oneof![6 => array_cases, 3 => string_cases, 1 => other_cases].boxed()
+    prop_oneof![12 => array_cases, 6 => string_cases, 2 => other_cases, 1 => long_cases].boxed()
 }
 
 fn check_rules(case: &Value, obs: &mut Obs) -> Result<(), String> {
@@ -275,7 +281,7 @@ fn check_state_sweep(case: &Value, obs: &mut Obs) -> Result<(), String> {
 }
 
 fn fixed_state_sweeps() -> Vec<Value> {
-    sweep_cases(2, 160)
+    sweep_cases(2, 300)
 }
 
 pub fn property() -> Property {
@@ -284,7 +290,7 @@ pub fn property() -> Property {
         subs: vec![
             Sub {
                 name: "state_sweep",
-                about: "accumulated state: for every W in 1..160 and each kind of keyed work of this operator family (distinct needles in data haystacks, distinct merges), W hot items are evaluated twice, then a new item, the hot set again, another new item, and everything in reverse; every call against the reference model - a cache, pool or table with any capacity up to 160 is driven exactly over its boundary.",
+                about: "accumulated state: for every W in 1..300 and each kind of keyed work of this operator family (distinct needles in data haystacks, distinct merges), W hot items are evaluated twice, then a new item, the hot set again, another new item, and everything in reverse; every call against the reference model - a cache, pool or table with any capacity up to 300 is driven exactly over its boundary.",
                 nontrivial: "every case.",
                 strategy: None,
                 fixed: Some(fixed_state_sweeps),
